@@ -936,3 +936,85 @@ func valueWritten(fn *ssa.Function, v ssa.Value) bool {
 	}
 	return false
 }
+
+func init() {
+	register("SNAP-6", "a child's snapshot is embedded verbatim in its parent's (containment is the dependency relation of the index)", 13, ruleSNAP6)
+}
+
+// SNAP-6: IndexVariables (INV-5) links an expression to a variable when the expression's snapshot *contains* the
+// variable's snapshot. That is a dependency relation only if every node writes its children's snapshots unmodified
+// into its own: a child snapshot that is transformed (case-folded, quoted, hashed, truncated) is no longer found by
+// the substring test, and assignments to the variable stop invalidating the expressions above it.
+func ruleSNAP6(c *Ctx) {
+	p := c.P
+	for _, n := range nodeTypeNames {
+		fn := p.Method("ast", n, "GetSnapshot")
+		if fn == nil {
+			c.AnchorLost("(*ast." + n + ").GetSnapshot")
+			continue
+		}
+		bad := ""
+		nChild := 0
+		var follow func(v ssa.Value, depth int)
+		follow = func(v ssa.Value, depth int) {
+			refs := v.Referrers()
+			if refs == nil || depth > 6 {
+				return
+			}
+			for _, r := range *refs {
+				switch x := r.(type) {
+				case *ssa.BinOp:
+					if x.Op == token.ADD {
+						follow(x, depth+1)
+						continue
+					}
+					bad = "a child's snapshot is an operand of " + x.Op.String() + " at " + p.InstrPos(x)
+				case *ssa.Phi:
+					follow(x, depth+1)
+				case *ssa.Store:
+					// spilled into a local or stored into a slice element (then joined/sorted: KnowledgeBase only)
+					if _, isAlloc := x.Addr.(*ssa.Alloc); isAlloc {
+						for _, rr := range *x.Addr.(*ssa.Alloc).Referrers() {
+							if ld, ok := rr.(*ssa.UnOp); ok && ld.Op == token.MUL {
+								follow(ld, depth+1)
+							}
+						}
+						continue
+					}
+					bad = "a child's snapshot is stored away at " + p.InstrPos(x) + " instead of being written"
+				case *ssa.MakeInterface:
+					// fmt verb arguments: accept %s / %v only
+					okFmt := true
+					for _, rr := range *x.Referrers() {
+						if _, isStore := rr.(*ssa.Store); !isStore {
+							okFmt = false
+						}
+					}
+					if !okFmt {
+						bad = "a child's snapshot is boxed for something other than a format argument at " + p.InstrPos(x)
+					}
+				case ssa.CallInstruction:
+					name := calleeName(x)
+					switch name {
+					case "(*strings.Builder).WriteString", "(*bytes.Buffer).WriteString":
+						continue
+					}
+					bad = "a child's snapshot is passed through " + name + " at " + p.InstrPos(x.(ssa.Instruction)) + " before it is written"
+				case *ssa.Return:
+					continue
+				default:
+					bad = fmt.Sprintf("a child's snapshot is used by %T at %s", r, p.InstrPos(r))
+				}
+			}
+		}
+		for _, ci := range callsIn(fn) {
+			call, ok := ci.(*ssa.Call)
+			if !ok || !calleeNameIs(call, "GetSnapshot") {
+				continue
+			}
+			nChild++
+			follow(call, 0)
+		}
+		c.Check(bad == "", n+".GetSnapshot / children embedded verbatim", p.Pos(fn.Pos()), fmt.Sprintf("%d child snapshots, each written as it is", nChild), bad+": the substring test of IndexVariables no longer finds the variables below this node, so assignments to them stop invalidating it")
+	}
+}
